@@ -60,6 +60,19 @@ PROPS = {
     'C11': dict(quick=dict(profiles=[seq('C11', 96, 30)]), thorough=dict(profiles=[seq('C11', 1600, 60)])),
     'C12': dict(quick=dict(profiles=[seq('C12', 160, 40)]), thorough=dict(profiles=[seq('C12', 3200, 100)])),
     'C13': dict(quick=dict(profiles=[prof('fmt', 4000), seq('C13', 96, 30)]), thorough=dict(profiles=[prof('fmt', 300000), seq('C13', 1600, 80)])),
+    'C14': dict(quick=dict(profiles=[prof('dread', 32, 8)]), thorough=dict(profiles=[prof('dread', 64, 108)]),
+                rule="multi-segment V2 logs built through the API (rollover 120-300 bytes, key index, time index on/off, deletes); a baseline sweep of every "
+                     "read call (Consume from every offset in [-2, next+1] x maxCount {1,3,32}, Get of every offset, GetByKey of every key and an absent "
+                     "one, ConsumeByKey, GetByTime of every microsecond) judged as ordinary calls; then per damage - a single-bit flip, a 1-8 byte "
+                     "overwrite, a truncation, a zero-filled tail at sampled positions (quick) or at every byte position of every segment log "
+                     "(thorough), index files intact - a copy is damaged, reopened with the same options (no Check/Recover) and swept again; the "
+                     "harness names the records with changed bytes (from the intact index), the driver judges: no panic; every returned message is "
+                     "the published one; an answer that would include an overwritten record is an error; calls not reaching the damaged segment "
+                     "answer as before; bytes allocated per call <= 64 MiB + 8 x file + 16 MiB; a case is one damaged directory, non-trivial when a "
+                     "read reached a damaged record",
+                assumptions=["index files intact (as the property states)", "the harness computes which records had bytes changed from the intact index (trusted)",
+                             "overwrites of 5-8 bytes and changes of the length fields are detected by CRC-32C only with probability 1-2^-32: the theorems "
+                             "cover bursts <= 4 bytes outside the length fields; the rest is observed"]),
     'C15': dict(quick=dict(profiles=[seq('C15', 160, 40)]), thorough=dict(profiles=[seq('C15', 3200, 100)])),
     'C16': dict(quick=dict(profiles=[seq('C16', 160, 40)]), thorough=dict(profiles=[seq('C16', 3200, 100)])),
     'C17': dict(quick=dict(profiles=[seq('C17', 160, 40)]), thorough=dict(profiles=[seq('C17', 3200, 100)])),
